@@ -37,9 +37,14 @@ class Ids:
         return 4 * k + 2
 
     def op(self, i):
+        if i == 3:
+            from vyper.venom.venom_to_assembly import _DeadStackItem
+            return _DeadStackItem()
         return self.by_id[i]
 
     def id_of(self, o):
+        if type(o).__name__ == "_DeadStackItem":
+            return 3
         for i, x in self.by_id.items():
             if type(x) is type(o) and x.value == o.value:
                 return i
@@ -98,6 +103,11 @@ PLAIN_OPS = [p[0] for p in PLAIN]
 
 
 ERR = {AssertionError: 1, IndexError: 2, KeyError: 3, TypeError: 4}
+try:
+    from vyper.exceptions import CompilerPanic as _CP
+    ERR[_CP] = 6
+except Exception:  # noqa
+    _CP = AssertionError
 
 
 class StubDFG:
@@ -193,6 +203,8 @@ class Real:
                 for x in present:
                     rest.remove(x)
                 want_multiset = sorted(rest)
+        elif k == "clean":
+            valid = bool(getattr(self, "valid_clean", False))
         elif k == "emit" and not c[1]:
             ops = c[2]
             vars_ = [o for o in ops if o % 4 == 1]
@@ -206,6 +218,20 @@ class Real:
             if k == "popmany" and sorted(after) != want_multiset:
                 self.oracle_bad.append({"command": [str(x) for x in c], "stack_before": before, "stack_after": after,
                                         "problem": "popmany did not remove exactly the requested operands"})
+            if k == "clean":
+                layout, inputs = c[1], c[2]
+                live_seen, bad_prefix = False, False
+                for x in after:
+                    if x == 3:
+                        bad_prefix = bad_prefix or live_seen
+                    else:
+                        live_seen = True
+                junk = [x for x in after if x != 3 and x not in inputs]
+                lost = [x for x in inputs if x in before and x not in after]
+                if bad_prefix or junk or lost:
+                    self.oracle_bad.append({"command": [str(x) for x in c], "stack_before": before, "stack_after": after,
+                                            "problem": "block-entry cleanup does not establish the successor's layout: "
+                                                       f"dead slot above a live item={bad_prefix}, items that are not live-in={junk}, live-in items lost={lost}"})
             if k == "emit":
                 ops, live = c[2], c[3]
                 restored = [o for o in ops if o % 4 == 1 and o in sp_before]
@@ -259,6 +285,19 @@ class Real:
                 vc._emit_input_operands(asm, inst, [ids.op(i) for i in c[2]], stack, OrderedSet(ids.op(i) for i in c[3]), spilled)
             elif k == "popmany":
                 vc.popmany(asm, [ids.op(i) for i in c[1]], stack)
+            elif k == "clean":
+                _, layout, inputs, bound, promise = c
+                import types
+                class _BB:       # hashable stand-ins for basic blocks
+                    def __init__(self, label):
+                        self.label = label
+                in_bb, bb, other = _BB("in"), _BB("bb"), _BB("other")
+                vc.cfg = types.SimpleNamespace(cfg_in=lambda b: OrderedSet([in_bb]), cfg_out=lambda b: OrderedSet([bb, other]))
+                vc.liveness = types.SimpleNamespace(input_vars_from=lambda a_, b_: OrderedSet(ids.op(i) for i in inputs),
+                                                    out_vars=lambda b_: OrderedSet(ids.op(i) for i in layout))
+                vc._stack_cleanup_safety = types.SimpleNamespace(stack_height_bound=lambda b_, h_: promise)
+                nb = vc.clean_stack_from_cfg_in(asm, bb, stack, bound)
+                self.costs.append(-1 if nb is None else nb)
             elif k == "inst":
                 _, kind, code, ops, outs, live, next_term, skip_pops = c
                 from vlib import c14s_tv as TV
@@ -284,7 +323,7 @@ class Real:
                 vc.dup_op(asm, stack, ids.op(c[1]))
             self.n += 1
             return True
-        except (AssertionError, IndexError, KeyError, TypeError) as e:
+        except (AssertionError, IndexError, KeyError, TypeError, _CP) as e:
             self.failed = [0, self.n, ERR[type(e)]]
             return False
 
@@ -310,6 +349,7 @@ def coq_cmd(c):
             "reorder": lambda: f"CReorder {'true' if c[1] else 'false'} {zl(c[2])}", "pop": lambda: f"CPop {z(c[1])}",
             "push": lambda: f"CPush {c[1]}", "pushvar": lambda: f"CPush {c[1]}", "emit": lambda: f"CEmit {'true' if c[1] else 'false'} {zl(c[2])} {zl(c[3])}",
             "popmany": lambda: f"CPopMany {zl(c[1])}",
+            "clean": lambda: f"CClean {zl(c[1])} {zl(c[2])} {'(Some ' + str(c[3]) + ')' if c[3] is not None else 'None'} {'(Some ' + str(c[4]) + ')' if c[4] is not None else 'None'}",
             "inst": lambda: f"CInst {c[1]} {c[2]} {zl(c[3])} {zl(c[4])} {zl(c[5])} {'true' if c[6] else 'false'} {'true' if c[7] else 'false'}",
             "swap_op": lambda: f"CSwapOp {c[1]}", "dup_op": lambda: f"CDupOp {c[1]}"}[k]()
 
@@ -414,6 +454,42 @@ def gen_scenario(rnd, ids, big):
     return m0, classes, cmds, real
 
 
+def gen_clean_scenario(rnd, ids):
+    """block-entry cleanup (clean_stack_from_cfg_in): a stack of distinct variables above an optional retained dead
+    prefix; layout = the predecessor's out_vars (the variables on the stack, some spilled/absent ones), inputs = the
+    subset this successor needs.  ~12% of the scenarios break the scheduler's invariant on purpose (a dead slot above a
+    live item, or a junk variable that is not in the layout -- the shape of the dead-phi bug)."""
+    nvars = rnd.randrange(2, 30)
+    pool = [ids.var(k) for k in range(nvars + 4)]
+    vars_ = rnd.sample(pool[:nvars], rnd.randrange(1, nvars + 1))
+    ndead = rnd.choice([0, 0, 1, 2, 4])
+    m0 = [3] * ndead + vars_
+    broken = rnd.random() < 0.12
+    layout = list(vars_)
+    if broken:
+        if rnd.random() < 0.5 and len(m0) >= 2:
+            m0.insert(rnd.randrange(1, len(m0) + 1), 3)          # dead slot above a live item
+        else:
+            layout.remove(rnd.choice(layout))                   # a junk variable unknown to liveness
+    rnd.shuffle(layout)
+    layout += [p for p in pool[nvars:] if rnd.random() < 0.3]   # live-out variables that are not on the stack
+    keep = rnd.choice([0.0, 0.3, 0.6, 0.9, 1.0])
+    inputs = [v for v in layout if rnd.random() < keep]
+    bound = rnd.choice([None, None, len(m0) + rnd.randrange(0, 5)])
+    promise = rnd.choice([None, len(m0) + rnd.randrange(0, 8)])
+    real = Real(ids, {}, m0)
+    cmds = [("clean", layout, inputs, bound, promise)]
+    real.valid_clean = not broken
+    if real.apply(cmds[0]):
+        cur = real.stack_ids()
+        tgt = [x for x in dict.fromkeys(cur) if x != 3]
+        if tgt:
+            c = ("reorder", False, rnd.sample(tgt, rnd.randrange(1, min(6, len(tgt)) + 1)))
+            cmds.append(c)
+            real.apply(c)
+    return m0, {}, cmds, real
+
+
 def gen_call_scenario(rnd, ids):
     """instruction-codegen scenarios for the internal-call convention: a stack of distinct variables (some spilled),
     then `invoke` with 0..20 arguments (variables + literals) and 0..6 outputs, plain instructions, and a final `ret`
@@ -495,6 +571,8 @@ def spill_differential(ctx, n_scen):
         ids = Ids()
         if k % 4 == 3:
             m0, classes, cmds, real = gen_call_scenario(rnd, ids)
+        elif k % 4 == 1:
+            m0, classes, cmds, real = gen_clean_scenario(rnd, ids)
         else:
             m0, classes, cmds, real = gen_scenario(rnd, ids, big=(k % 2 == 0))
         scen.append((ids, m0, classes, cmds, real))
@@ -575,7 +653,7 @@ def evm_execution(ctx, scen):
         rep = lambda x: classes.get(x, x)  # noqa
         got = [int.from_bytes(r.out[32 * k:32 * k + 32], "big") for k in range(len(final))] if r.ok else None
         want = list(reversed(final))
-        if got is None or [rep(x) for x in got] != [rep(x) for x in want]:
+        if got is None or any(w != 3 and rep(g) != rep(w) for g, w in zip(got, want)):
             bad.append({"initial_stack": m0, "commands": [list(map(str, c)) for c in cmds], "assembly": [str(x) for x in real.asm],
                         "evm_stack_top_first": got, "stack_model_top_first": want})
     return n, bad
